@@ -255,6 +255,8 @@ class Net:
             return
         st = self.astatus()
         tab = [(r[2], status[k]['lastseen']) for k, r in st if r[2] is not None]
+        if len({t for t, _ in tab}) != len(set(tab)):
+            return        # one instant rendered in two formats (foreign writer vs kopf): [fmt] is a function of the instant
         case = (st, tab, copy.deepcopy(status))
         if case not in self.enc_cases:
             self.enc_cases.append(case)
